@@ -255,12 +255,23 @@ class C16(Prop):
             trace = []
             x_len = r.random()
             n_calls = 14 if x_len > 0.13 else (130 if x_len > 0.03 else 640)
+            from ..ref import irsel as _irsel
+
+            caps_ = _irsel.capabilities(irset)
+            walk = [(m_, t_, f_, s_) for m_ in caps_["modes"] for t_ in (range(caps_["min"] or 20, (caps_["max"] or 20) + 1) if m_ in ("COOL", "HEAT") else (22,))
+                    for f_ in FANS for s_ in ("ON", "OFF")]
+            if len(irset["IRWaveList"]) > 280 and x_len < 0.4:
+                n_calls = 640      # a remote rich enough to have hundreds of different codes asked of it
             early = []         # (reported, request) of the first calls of a very long history: asked again at its end
             if n_calls == 640:
                 acc.count("very_long_histories_on_one_remote_object")
             for n in range(n_calls + (60 if n_calls == 640 else 0)):
                 new_report()
-                a = request_for(r.randrange(32) if n_calls < 640 else r.choice([31, 15, 14, 30, 7]), r)
+                a = request_for(r.randrange(32), r)
+                if n_calls == 640 and n < n_calls:
+                    # a systematic walk over every setting the remote can express: hundreds of different codes through one object
+                    m_, t_, f_, s_ = walk[(n * 7) % len(walk)] if len(walk) % 7 else walk[n % len(walk)]
+                    a = {"state": "ON", "mode": m_, "target": t_, "fan": f_, "swing": s_}
                 if r.random() < 0.25 and n_calls < 640:
                     a["update_state"] = True
                 if n_calls == 640:
